@@ -132,7 +132,7 @@ fn check2(acc: Option<f64>, g: [Option<bool>; 5], do_post: bool, do_idem: bool, 
     }
 }
 
-//@ obl: id=U7.mania.genstate.noacc_best_g320g300 harness=u7_mania_genstate_noacc_best_g320g300 props=C12,C05 tier=quick kind=proof
+//@ obl: id=U7.mania.genstate.noacc_best_g320g300 harness=u7_mania_genstate_noacc_best_g320g300 props=C12 tier=quick kind=proof
 //@ fns: ManiaPerformance::generate_state, Difficulty::get_passed_objects, Difficulty::get_lazer, GameMods::cl
 //@ bound: loop-free path; case split (concrete): priority BestCase, n320 given, n300 given; n200/n100/n50/misses each None or any u32; attribute counts <= 2^20
 //@ clause: mania generate_state without accuracy: (1) misses' = min(misses, min(passed, n_objects)); (2) provided results that fit are kept; (3) sum provided <= N ==> n320'+n300'+n200'+n100'+n50'+misses' == N, N = notes (+ hold notes for lazer scores); (6) builder holds the generated values; no overflow / panic
@@ -141,7 +141,7 @@ fn u7_mania_genstate_noacc_best_g320g300() {
     check2(None, [Some(true), Some(true), None, None, None], true, false, Some(true));
 }
 
-//@ obl: id=U7.mania.genstate.noacc_best_g320n300 harness=u7_mania_genstate_noacc_best_g320n300 props=C12,C05 tier=quick kind=proof
+//@ obl: id=U7.mania.genstate.noacc_best_g320n300 harness=u7_mania_genstate_noacc_best_g320n300 props=C12 tier=quick kind=proof
 //@ fns: ManiaPerformance::generate_state, Difficulty::get_passed_objects, Difficulty::get_lazer, GameMods::cl
 //@ bound: loop-free path; case split (concrete): priority BestCase, n320 given, n300 not given; n200/n100/n50/misses each None or any u32; attribute counts <= 2^20
 //@ clause: mania generate_state without accuracy: (1) misses' = min(misses, min(passed, n_objects)); (2) provided results that fit are kept; (3) sum provided <= N ==> n320'+n300'+n200'+n100'+n50'+misses' == N, N = notes (+ hold notes for lazer scores); (6) builder holds the generated values; no overflow / panic
@@ -150,7 +150,7 @@ fn u7_mania_genstate_noacc_best_g320n300() {
     check2(None, [Some(true), Some(false), None, None, None], true, false, Some(true));
 }
 
-//@ obl: id=U7.mania.genstate.noacc_best_n320g300 harness=u7_mania_genstate_noacc_best_n320g300 props=C12,C05 tier=quick kind=proof
+//@ obl: id=U7.mania.genstate.noacc_best_n320g300 harness=u7_mania_genstate_noacc_best_n320g300 props=C12 tier=quick kind=proof
 //@ fns: ManiaPerformance::generate_state, Difficulty::get_passed_objects, Difficulty::get_lazer, GameMods::cl
 //@ bound: loop-free path; case split (concrete): priority BestCase, n320 not given, n300 given; n200/n100/n50/misses each None or any u32; attribute counts <= 2^20
 //@ clause: mania generate_state without accuracy: (1) misses' = min(misses, min(passed, n_objects)); (2) provided results that fit are kept; (3) sum provided <= N ==> n320'+n300'+n200'+n100'+n50'+misses' == N, N = notes (+ hold notes for lazer scores); (6) builder holds the generated values; no overflow / panic
@@ -159,7 +159,7 @@ fn u7_mania_genstate_noacc_best_n320g300() {
     check2(None, [Some(false), Some(true), None, None, None], true, false, Some(true));
 }
 
-//@ obl: id=U7.mania.genstate.noacc_best_n320n300 harness=u7_mania_genstate_noacc_best_n320n300 props=C12,C05 tier=quick kind=proof
+//@ obl: id=U7.mania.genstate.noacc_best_n320n300 harness=u7_mania_genstate_noacc_best_n320n300 props=C12 tier=quick kind=proof
 //@ fns: ManiaPerformance::generate_state, Difficulty::get_passed_objects, Difficulty::get_lazer, GameMods::cl
 //@ bound: loop-free path; case split (concrete): priority BestCase, n320 not given, n300 not given; n200/n100/n50/misses each None or any u32; attribute counts <= 2^20
 //@ clause: mania generate_state without accuracy: (1) misses' = min(misses, min(passed, n_objects)); (2) provided results that fit are kept; (3) sum provided <= N ==> n320'+n300'+n200'+n100'+n50'+misses' == N, N = notes (+ hold notes for lazer scores); (6) builder holds the generated values; no overflow / panic
@@ -168,7 +168,7 @@ fn u7_mania_genstate_noacc_best_n320n300() {
     check2(None, [Some(false), Some(false), None, None, None], true, false, Some(true));
 }
 
-//@ obl: id=U7.mania.genstate.noacc_worst_g320g300 harness=u7_mania_genstate_noacc_worst_g320g300 props=C12,C05 tier=quick kind=proof
+//@ obl: id=U7.mania.genstate.noacc_worst_g320g300 harness=u7_mania_genstate_noacc_worst_g320g300 props=C12 tier=quick kind=proof
 //@ fns: ManiaPerformance::generate_state, Difficulty::get_passed_objects, Difficulty::get_lazer, GameMods::cl
 //@ bound: loop-free path; case split (concrete): priority WorstCase, n320 given, n300 given; n200/n100/n50/misses each None or any u32; attribute counts <= 2^20
 //@ clause: mania generate_state without accuracy: (1) misses' = min(misses, min(passed, n_objects)); (2) provided results that fit are kept; (3) sum provided <= N ==> n320'+n300'+n200'+n100'+n50'+misses' == N, N = notes (+ hold notes for lazer scores); (6) builder holds the generated values; no overflow / panic
@@ -177,7 +177,7 @@ fn u7_mania_genstate_noacc_worst_g320g300() {
     check2(None, [Some(true), Some(true), None, None, None], true, false, Some(false));
 }
 
-//@ obl: id=U7.mania.genstate.noacc_worst_g320n300 harness=u7_mania_genstate_noacc_worst_g320n300 props=C12,C05 tier=quick kind=proof
+//@ obl: id=U7.mania.genstate.noacc_worst_g320n300 harness=u7_mania_genstate_noacc_worst_g320n300 props=C12 tier=quick kind=proof
 //@ fns: ManiaPerformance::generate_state, Difficulty::get_passed_objects, Difficulty::get_lazer, GameMods::cl
 //@ bound: loop-free path; case split (concrete): priority WorstCase, n320 given, n300 not given; n200/n100/n50/misses each None or any u32; attribute counts <= 2^20
 //@ clause: mania generate_state without accuracy: (1) misses' = min(misses, min(passed, n_objects)); (2) provided results that fit are kept; (3) sum provided <= N ==> n320'+n300'+n200'+n100'+n50'+misses' == N, N = notes (+ hold notes for lazer scores); (6) builder holds the generated values; no overflow / panic
@@ -186,7 +186,7 @@ fn u7_mania_genstate_noacc_worst_g320n300() {
     check2(None, [Some(true), Some(false), None, None, None], true, false, Some(false));
 }
 
-//@ obl: id=U7.mania.genstate.noacc_worst_n320g300 harness=u7_mania_genstate_noacc_worst_n320g300 props=C12,C05 tier=quick kind=proof
+//@ obl: id=U7.mania.genstate.noacc_worst_n320g300 harness=u7_mania_genstate_noacc_worst_n320g300 props=C12 tier=quick kind=proof
 //@ fns: ManiaPerformance::generate_state, Difficulty::get_passed_objects, Difficulty::get_lazer, GameMods::cl
 //@ bound: loop-free path; case split (concrete): priority WorstCase, n320 not given, n300 given; n200/n100/n50/misses each None or any u32; attribute counts <= 2^20
 //@ clause: mania generate_state without accuracy: (1) misses' = min(misses, min(passed, n_objects)); (2) provided results that fit are kept; (3) sum provided <= N ==> n320'+n300'+n200'+n100'+n50'+misses' == N, N = notes (+ hold notes for lazer scores); (6) builder holds the generated values; no overflow / panic
@@ -195,7 +195,7 @@ fn u7_mania_genstate_noacc_worst_n320g300() {
     check2(None, [Some(false), Some(true), None, None, None], true, false, Some(false));
 }
 
-//@ obl: id=U7.mania.genstate.noacc_worst_n320n300 harness=u7_mania_genstate_noacc_worst_n320n300 props=C12,C05 tier=quick kind=proof
+//@ obl: id=U7.mania.genstate.noacc_worst_n320n300 harness=u7_mania_genstate_noacc_worst_n320n300 props=C12 tier=quick kind=proof
 //@ fns: ManiaPerformance::generate_state, Difficulty::get_passed_objects, Difficulty::get_lazer, GameMods::cl
 //@ bound: loop-free path; case split (concrete): priority WorstCase, n320 not given, n300 not given; n200/n100/n50/misses each None or any u32; attribute counts <= 2^20
 //@ clause: mania generate_state without accuracy: (1) misses' = min(misses, min(passed, n_objects)); (2) provided results that fit are kept; (3) sum provided <= N ==> n320'+n300'+n200'+n100'+n50'+misses' == N, N = notes (+ hold notes for lazer scores); (6) builder holds the generated values; no overflow / panic
@@ -228,32 +228,32 @@ macro_rules! acc_shape {
     };
 }
 
-//@ obl: id=U7.mania.genstate.acc_all harness=u7_mania_genstate_acc_all props=C12,C05 tier=quick kind=proof
+//@ obl: id=U7.mania.genstate.acc_all harness=u7_mania_genstate_acc_all props=C12 tier=quick kind=proof
 //@ fns: ManiaPerformance::generate_state
 //@ bound: loop-free arm; accuracy any value in [0,1]
 //@ clause: mania generate_state with accuracy and all five results given: C12 clauses (1)-(3),(5),(6)
 acc_shape!(u7_mania_genstate_acc_all, true, true, true, true, true);
-//@ obl: id=U7.mania.genstate.acc_no320 harness=u7_mania_genstate_acc_no320 props=C12,C05 tier=quick kind=proof
+//@ obl: id=U7.mania.genstate.acc_no320 harness=u7_mania_genstate_acc_no320 props=C12 tier=quick kind=proof
 //@ fns: ManiaPerformance::generate_state
 //@ bound: loop-free arm; accuracy any value in [0,1]
 //@ clause: mania generate_state with accuracy and all results but n320 given: C12 clauses (1)-(3),(5),(6) (clause 3 failed before fix 9ff61f9)
 acc_shape!(u7_mania_genstate_acc_no320, false, true, true, true, true);
-//@ obl: id=U7.mania.genstate.acc_no300 harness=u7_mania_genstate_acc_no300 props=C12,C05 tier=quick kind=proof
+//@ obl: id=U7.mania.genstate.acc_no300 harness=u7_mania_genstate_acc_no300 props=C12 tier=quick kind=proof
 //@ fns: ManiaPerformance::generate_state
 //@ bound: loop-free arm; accuracy any value in [0,1]
 //@ clause: mania generate_state with accuracy and all results but n300 given: C12 clauses (1)-(3),(5),(6)
 acc_shape!(u7_mania_genstate_acc_no300, true, false, true, true, true);
-//@ obl: id=U7.mania.genstate.acc_no200 harness=u7_mania_genstate_acc_no200 props=C12,C05 tier=quick kind=proof
+//@ obl: id=U7.mania.genstate.acc_no200 harness=u7_mania_genstate_acc_no200 props=C12 tier=quick kind=proof
 //@ fns: ManiaPerformance::generate_state
 //@ bound: loop-free arm; accuracy any value in [0,1]
 //@ clause: mania generate_state with accuracy and all results but n200 given: C12 clauses (1)-(3),(5),(6)
 acc_shape!(u7_mania_genstate_acc_no200, true, true, false, true, true);
-//@ obl: id=U7.mania.genstate.acc_no100 harness=u7_mania_genstate_acc_no100 props=C12,C05 tier=quick kind=proof
+//@ obl: id=U7.mania.genstate.acc_no100 harness=u7_mania_genstate_acc_no100 props=C12 tier=quick kind=proof
 //@ fns: ManiaPerformance::generate_state
 //@ bound: loop-free arm; accuracy any value in [0,1]
 //@ clause: mania generate_state with accuracy and all results but n100 given: C12 clauses (1)-(3),(5),(6)
 acc_shape!(u7_mania_genstate_acc_no100, true, true, true, false, true);
-//@ obl: id=U7.mania.genstate.acc_no50 harness=u7_mania_genstate_acc_no50 props=C12,C05 tier=quick kind=proof
+//@ obl: id=U7.mania.genstate.acc_no50 harness=u7_mania_genstate_acc_no50 props=C12 tier=quick kind=proof
 //@ fns: ManiaPerformance::generate_state
 //@ bound: loop-free arm; accuracy any value in [0,1]
 //@ clause: mania generate_state with accuracy and all results but n50 given: C12 clauses (1)-(3),(5),(6)
